@@ -260,4 +260,17 @@ theorem allBuilt_reachable {s0 s : Sys} (h0 : Init s0) (hr : Reachable s0 s) :
     obtain ⟨sh, th, ht, rfl⟩ := step_iff.1 h
     simp [tstep_gC_good hp hf hg ht]
 
+theorem pairwise_id_unique {l : List Tmpl} (h : l.Pairwise (fun a b => a.id ≠ b.id)) {a b : Tmpl}
+    (ha : a ∈ l) (hb : b ∈ l) (e : a.id = b.id) : a = b := by
+  induction l with
+  | nil => simp at ha
+  | cons x r ih =>
+    rw [List.pairwise_cons] at h
+    simp only [List.mem_cons] at ha hb
+    rcases ha with rfl | ha <;> rcases hb with rfl | hb
+    · rfl
+    · exact absurd e (h.1 _ hb)
+    · exact absurd e.symm (h.1 _ ha)
+    · exact ih h.2 ha hb
+
 end MakoModel.Conc
